@@ -10,6 +10,10 @@ CHECKS = {
    "complete enumeration of the 8-bit score/byte domains x 7 encodings against analytic formulas",
    "Complete for the finite domains the statement quantifies over (all 256 Phred values, all 256 Solexa values, all 256 bytes, every encoding) plus a fixed grid of probabilities at 5 offsets around every score; this is a decision for the tables, not a bound.",
    "Trusts math.Pow/math.Log10 as the analytic reference (1e-12 relative tolerance); sentinel scores 254/255/127/-128 excluded; Solexa printable range taken from score -5."),
+ "C19": (E1, "model_checking", "DESIGN.md §2, §3 C19",
+   "stateless model checking of the real package under a controlled scheduler: every interleaving (happens-before state cache, no preemption bound) of closed Processor/Map/Promise drivers",
+   "Every schedule of each listed closed driver (2-5 goroutines) is executed on the real, overlay-instrumented package concurrent at the granularity of channel, mutex, cond, once, waitgroup and go operations; the oracle (results multiset, single close, all workers exit, one winning Fulfill/Fail, every Wait returns the winner's value, no panic/deadlock/race) is evaluated on every execution. Drivers that do not close within the budget report the completed preemption bound and exhaustive:false.",
+   "Exhaustive for the listed drivers only, not for arbitrary client programs; sequentially consistent interleavings (justified by the vector-clock race oracle evaluated on each schedule); scheduler/instrumenter (vrt, vinstr) are trusted and self-checked on toy programs with known answers before each run."),
 }
 PENDING = {}  # id -> reason, for properties not (yet) claimed
 
